@@ -113,3 +113,43 @@ Qed.
 
 Example C02_lre_nil_nonvacuous : lre ex_its [] = [] /\ lre ex_its [7%N] = [7%N; 6%N; 5%N; 1%N].
 Proof. vm_compute. split; reflexivity. Qed.
+
+From SK Require Import proof.C02_Ctx.
+
+(** the maximum-radius context (n_knn = -1) contains the whole extension path: the path has r atoms, starts in a centre atom and every
+    step is a bond, so its i-th atom is within i < r bonds of the centre *)
+Lemma zchain_walk (g : its) : forall ext n x, zchain g n ext -> In x ext -> exists m, (1 <= m <= length ext)%nat /\ walk g n x m.
+Proof.
+  induction ext as [|v r IH]; intros n x Z I; [destruct I|]. simpl in Z. destruct Z as [Sd Z].
+  assert (adj g n v <> None) as Ad by (unfold std0 in Sd; destruct (adj g n v); [discriminate|discriminate]).
+  destruct I as [<-|I].
+  - exists 1%nat. split; [simpl; lia|]. econstructor; [constructor|exact Ad].
+  - destruct (IH v x Z I) as (m & Hm & Wk). exists (S m). split; [simpl; lia|].
+    clear -Wk Ad. induction Wk as [s|s u y m Wk IHw A]; [econstructor; [constructor|exact Ad]|]. econstructor; [apply IHw; exact Ad|exact A].
+Qed.
+
+Theorem lre_path_in_context (g : its) : wf g ->
+  forall x, In x (lre g (node_ids (get_rc g))) -> In x (node_ids (extract_k_z g (-1))).
+Proof.
+  intros W x I. destruct (extract_k_z_minus1 g W) as [_ HN]. apply HN. clear HN.
+  destruct (lre_path g (node_ids (get_rc g))) as [E|(n & ext & In_ & E & Z & Nd)]; [rewrite E in I; destruct I|].
+  rewrite E in *. destruct I as [<-|I].
+  - exists n, O. repeat split; [exact In_|simpl; lia|constructor].
+  - destruct (zchain_walk g ext n x Z I) as (m & Hm & Wk). exists n, m. repeat split; [exact In_|simpl; lia|exact Wk].
+Qed.
+
+Example C02_lre_path_in_context_nonvacuous :
+  lre ex_its (node_ids (get_rc ex_its)) = [1%N; 5%N; 6%N; 7%N] /\ In 7%N (node_ids (extract_k_z ex_its (-1))) /\ ~ In 7%N (node_ids (extract_k ex_its 2)).
+Proof. vm_compute. split; [reflexivity|]. split; [auto 10|intuition discriminate]. Qed.
+
+(** with a non-empty centre the maximum radius is at least 1: the n_knn = -1 context contains the radius-1 context *)
+Theorem max_radius_contains_radius_1 (g : its) : wf g ->
+  forall n, In n (node_ids (extract_k g 1)) -> In n (node_ids (extract_k_z g (-1))).
+Proof.
+  intros W n I. destruct (extract_k_z_minus1 g W) as [_ HN]. apply HN. clear HN.
+  destruct (ctx_spec g W 1 (le_n _)) as (N1 & _ & _). apply N1 in I.
+  destruct I as (s & m & Is & Hm & Wk).
+  assert (lre g (node_ids (get_rc g)) <> []) as Hne by (intros E; apply lre_nil_iff in E; rewrite E in Is; destruct Is).
+  exists s, m. repeat split; [exact Is| |exact Wk].
+  destruct (lre g (node_ids (get_rc g))); [congruence|simpl; lia].
+Qed.
